@@ -1494,13 +1494,17 @@ def run_pipeline_obligations(rep, env, known, specs, clause):
 
 
 def check_c02(rep):
-    rep.statement = ('bounded, up to the AST: for 1-3 test cases of 1-3 letters (every equality pattern) under default settings, RegExp::from -- '
+    rep.statement = ('bounded, END TO END for small inputs: (b) the whole of build() -- RegExp::from followed by Display for RegExp / Expression / Grapheme '
+                     '(format.rs: alternations, character classes with ranges, concatenations, groups, escaping) -- is executed from MIR on test cases of '
+                     'symbolic characters, the printed pattern text is parsed back (groups, classes, ranges, escapes, quantifiers) and its language is '
+                     'EXACTLY the set of test cases: 2-3 test cases of 1-2 letters, and 1-2 test cases of 1-2 arbitrary printable ASCII characters (every '
+                     'metacharacter, \\n, \\t). (a) bounded, up to the AST: for 1-3 test cases of 1-3 letters (every equality pattern) under default settings, RegExp::from -- '
                      'preprocessing, grapheme clustering, trie construction, Hopcroft minimisation, recreate_graph, Brzozowski elimination with '
                      'union / concatenate and their simplifications, all executed from MIR -- returns an expression whose language (computed from '
                      'the returned Expression value) is EXACTLY the set of test cases. With the empty string among the test cases it is not: '
                      'known finding F7.')
-    rep.outside = ['printing of the expression (format.rs, Display for RegExp) except for literal ASTs (C06 kernel), and the regex crate\'s reading of it',
-                   'code points other than ASCII letters (grapheme clustering is stubbed to one cluster per letter)', 'more or longer test cases than the bound',
+    rep.outside = ['the regex crate\'s own parser (the printed text is read back by a parser written for the subset of syntax grex emits; every counterexample is replayed with the real regex crate)',
+                   'code points other than printable ASCII (grapheme clustering is stubbed to one cluster per character)', 'more or longer test cases than the bound',
                    'settings other than the default (each covered by its own property)']
     rep.assumptions += ['petgraph StableGraph / Dfs, ndarray Array1/Array2, HashSet/HashMap/BTreeSet are modelled with concrete shape (insertion-ordered sets, '
                         'neighbors() newest edge first, Dfs with explicit stack); unicode-segmentation is stubbed for ASCII letters']
@@ -1509,6 +1513,21 @@ def check_c02(rep):
     quick = [((1,), False, False), ((1, 1), False, False), ((2, 1), False, False), ((2, 2), False, False), ((1,), True, False)]
     thorough = quick + [((3, 2), False, False), ((2, 2, 1), False, False), ((3, 3), False, False), ((2, 1), True, False)]
     run_pipeline_obligations(rep, env, known, quick if rep.tier == 'quick' else thorough, 'exact')
+    # the same pipeline followed by Display for RegExp: the language of the PRINTED text (parsed back) is the set of test cases
+    tq = [((1, 1), False, 'letters'), ((2, 1), False, 'letters'), ((1,), False, 'ascii'), ((1, 1), False, 'ascii'), ((2,), False, 'ascii'), ((1,), True, 'letters')]
+    tt = tq + [((2, 2), False, 'letters'), ((1, 1, 1), False, 'letters'), ((1, 1, 1), False, 'ascii'), ((2, 1), False, 'ascii'), ((3, 2), False, 'letters')]
+    for lens, with_empty, dom in (tq if rep.tier == 'quick' else tt):
+        o = ob_add(rep, Q.q02t(env.ctx, lens, with_empty, dom))
+        if o.result != 'sat':
+            continue
+        for m in o.verdict.models:
+            cases = ([[]] if with_empty else []) + [[m['s%d_%d' % (i, j)] for j in range(n)] for i, n in enumerate(lens)]
+            bad, what, obs = replay_pipeline(env, cases, {}, 'exact')
+            if with_empty and obs.get('missing') == [[]] and not obs.get('extra'):
+                key = 'empty-test-case-lost'
+            else:
+                key = 'cases=%s' % '|'.join('+'.join(u(x) for x in s_) or '""' for s_ in cases)
+            classify(rep, known, 'Q02t', key, what, {'inputs': {'pipeline': cases, 'settings': {}, 'clause': 'exact'}, 'observed': obs}, bad)
 
 
 def check_c01(rep):
